@@ -25,7 +25,6 @@ package routers
 //@   records isnil(result1) ==> routedTo(r, categoryUUID, match, operand, result0)
 //@ loop 1
 //@   invariant forall j int :: 0 <= j && j <= $i ==> r.categories[j].(*Category).uuid != categoryUUID
-//@   invariant isnil(category)
 
 // ---- switch router
 //@ pred casesOK(r *SwitchRouter) bool := r != nil && (forall k int :: 0 <= k && k < len(r.cases) ==> (r.cases[k] != nil && r.cases[k].CategoryUUID != ""))
